@@ -392,6 +392,13 @@ void ConstrainedMajorizationLayout::run(bool x, bool y) {
                 gpY->unfixPos(l->getID());
             }
         }
+        // The boundary edges that straighten() generated for the clusters
+        // lived in cedges, for this iteration only.
+        for(vector<straightener::Edge*>::iterator e=cedges.begin();
+                e!=cedges.end();++e) {
+            delete *e;
+        }
+        cedges.clear();
     } while(!(*done)(compute_stress(Dij),X,Y));
 }
 double ConstrainedMajorizationLayout::computeStress() {
@@ -473,6 +480,13 @@ void ConstrainedMajorizationLayout::runOnce(bool x, bool y) {
                 gpY->unfixPos(l->getID());
             }
         }
+        // The boundary edges that straighten() generated for the clusters
+        // lived in cedges, for this iteration only.
+        for(vector<straightener::Edge*>::iterator e=cedges.begin();
+                e!=cedges.end();++e) {
+            delete *e;
+        }
+        cedges.clear();
     } 
 }
 void ConstrainedMajorizationLayout::straighten(vector<straightener::Edge*>& sedges, Dim dim) {
